@@ -73,7 +73,7 @@ def run(ctx):
                                 gates=["auth", "resolved"], depth=12),
                  mode="hypo", keep=lambda b: panel.has_dup(b) and panel.has_unowned(b, "getuser-check-then-act"))
         gens = jobs.gens()
-        gens["getuser"] = panel.thin(gens["getuser"], n(60, 400), ctx.seed)
+        gens["getuser"] = panel.thin(gens["getuser"], n(60, 200), ctx.seed)
         for k in gens:
             if not gens[k] and not (k == "gap" and "UserLookupGap" not in panel.CODE_DEV):
                 raise lib.Inconclusive("TLC produced no behaviour for " + k)
